@@ -68,3 +68,6 @@ M("c05-classifier-walks-any-exception", "C05", A, "is_anyio_cancellation", "    
 M("c05-exit-checkpoint-outside-try", "C05", A, "TaskGroup.__aexit__",
   "            try:\n                if not self._tasks:\n                    # If there are no child tasks to wait on, run at least one checkpoint\n                    # anyway\n                    try:\n                        await AsyncIOBackend.cancel_shielded_checkpoint()\n                    except CancelledError as exc:\n                        # A native cancellation got through the shield. Any task that\n                        # was started during the checkpoint still has to be waited on\n                        # below, so handle this the same way as in the wait loop.\n                        self.cancel_scope.cancel()\n                        if exc_val is None or (\n                            isinstance(exc_val, CancelledError)\n                            and not is_anyio_cancellation(exc)\n                        ):\n                            exc_val = exc\n\n                if self._tasks:",
   "            if not self._tasks:\n                await AsyncIOBackend.cancel_shielded_checkpoint()\n\n            try:\n                if self._tasks:", ["R05-f"])
+
+# from seeded change C05/e (round 3): the visibility walk honours only the starting scope's shield
+M("c05-visibility-walk-own-shield-only", "C05", A, "CancelScope._effectively_cancelled", "            if cancel_scope.shield:\n                return False", "            if self.shield:\n                return False", ["R05-g"])
